@@ -421,6 +421,13 @@ func (d Dialer) Upgrade(conn io.ReadWriter, u *url.URL) (br *bufio.Reader, hs Ha
 				err = ErrHandshakeBadSubProtocol
 				return br, hs, err
 			}
+			if hs.Protocol != string(v) {
+				// One more Sec-WebSocket-Protocol header, and this one names a
+				// subprotocol that was not requested: hs.Protocol still holds
+				// the match of an earlier header.
+				err = ErrHandshakeBadSubProtocol
+				return br, hs, err
+			}
 
 		case headerSecExtensionsCanonical:
 			hs.Extensions, err = matchSelectedExtensions(v, d.Extensions, hs.Extensions)
